@@ -71,6 +71,9 @@ fn continue_timed(run: &mut Run<'_>, mode: Mode, horizon: u64) -> (Vec<Emission>
     let mut next_sync = SEC / 5;
     let mut pending_frames: Vec<(u64, usize, Vec<u8>, bool)> = vec![];
     let mport = mode.mport(n);
+    // a port that is faulty when the continuation starts keeps hearing the same master too (its
+    // Announces are recorded but a faulty port takes no part in the BMCA)
+    let also_on_faulty_first = mode == Mode::BetterMasterLast && n > 1 && matches!(run.states()[0], PS::Faulty);
     let mut guard = 0;
     loop {
         guard += 1;
@@ -130,7 +133,11 @@ fn continue_timed(run: &mut Run<'_>, mode: Mode, horizon: u64) -> (Vec<Emission>
                 Ev::Bmca
             }
         };
+        let announce_now = matches!(ev, Ev::Ann(..)) && class == 0;
         let mut queue = vec![ev];
+        if announce_now && also_on_faulty_first {
+            queue.push(Ev::Ann(0, 0));
+        }
         while let Some(ev) = queue.pop() {
             let step = run.apply(&ev);
             if step.panic.is_some() {
@@ -482,6 +489,15 @@ fn defs() -> Vec<WorldDef> {
         WorldDef { name: "2p-e2e-far-master-slave-seed", ports: vec![(false, false), (false, false)], slave_only: false, seed: slave_seed.clone(), obedient: true, rich: false, depth: (3, 4) },
         WorldDef { name: "1p-e2e-slaveonly", ports: vec![(false, false)], slave_only: true, seed: vec![], obedient: true, rich: false, depth: (4, 6) },
         WorldDef { name: "2p-e2e", ports: vec![(false, false), (false, false)], slave_only: false, seed: vec![], obedient: true, rich: false, depth: (4, 5) },
+        WorldDef {
+            name: "2p-p2p-first-faulty-after-slave",
+            ports: vec![(true, false), (false, false)],
+            slave_only: false,
+            seed: vec![Ev::Ann(0, 0), Ev::Ann(0, 0), Ev::T(1, Timer::Receipt), Ev::Bmca, Ev::T(0, Timer::Delay), Ev::TxTs(0), Ev::PdelayResp(0, 0, false, true), Ev::PdelayResp(0, 1, false, true)],
+            obedient: true,
+            rich: false,
+            depth: (2, 3),
+        },
         WorldDef { name: "1p-e2e-masteronly", ports: vec![(false, true)], slave_only: false, seed: vec![], obedient: true, rich: false, depth: (4, 6) },
         WorldDef { name: "2p-bc-seed", ports: vec![(false, false), (true, false)], slave_only: false, seed: vec![Ev::Ann(0, 0), Ev::Ann(0, 0), Ev::T(1, Timer::Receipt), Ev::Bmca], obedient: true, rich: false, depth: (3, 4) },
     ]
@@ -512,7 +528,7 @@ pub fn systems() -> Vec<(WorldSys<'static, LiveMon>, (usize, usize))> {
         }
     }
     // the better master on the last port of a two-port instance
-    for (mut s, d) in build("C12", &BETTER_LAST, defs().into_iter().filter(|d| d.name == "2p-e2e").collect(), false) {
+    for (mut s, d) in build("C12", &BETTER_LAST, defs().into_iter().filter(|d| d.name == "2p-e2e" || d.name == "2p-p2p-first-faulty-after-slave").collect(), false) {
         s.name = format!("{}+better-master-on-last-port", s.name);
         all.push((s, d));
     }
